@@ -106,3 +106,19 @@ Theorem C16_source_determinants :
   forall a, gen_det2 ZS a = det_spec 2 a /\ gen_det3 ZS a = det_spec 3 a /\ gen_det4 ZS a = det_spec 4 a.
 Proof. intros a. exact (conj (gen_det2_spec a) (conj (gen_det3_spec a) (gen_det4_spec a))). Qed.
 Print Assumptions C16_source_determinants.
+
+(** * Structure of the reductions and predicates as TRANSLATED from tensor/AbstractTensorFunctions.h on this run:
+    sum / product / min / max have the shape of [reduce] (one operation for vector update, scalar tail, horizontal
+    fold and final combination; seeds 0, 1, numeric max, numeric lowest); all_of / any_of / none_of are the model's
+    early-exit loops.  The known finding is visible in the source itself: the translated body of none_of equals the
+    translated body of any_of. *)
+From FastorV Require Import Gen.GeneratedAccess Proofs.GenAccessEq.
+Theorem C16_source_reductions :
+  gen_reduce_sum = [0; 0; 0; 0] /\ gen_reduce_product = [1; 1; 1; 1] /\ gen_reduce_min = [2; 2; 2; 2] /\ gen_reduce_max = [3; 3; 3; 3].
+Proof. exact gen_reduce_structure. Qed.
+Theorem C16_source_predicates :
+  forall f n, pred_of gen_pred_all_of f n = all_of f n /\ pred_of gen_pred_any_of f n = any_of f n /\ pred_of gen_pred_none_of f n = none_of f n.
+Proof. exact gen_predicates. Qed.
+Theorem C16_source_none_of_is_any_of : gen_pred_none_of = gen_pred_any_of.
+Proof. exact gen_none_of_is_any_of_in_the_source. Qed.
+Print Assumptions C16_source_predicates.
